@@ -23,6 +23,9 @@ dictionaries are not mutated. K6: bzr/tag.py serialises tag names with .encode("
 .decode("utf-8"), values pass through bencode/bdecode unchanged. K5: every caller of _reconcile_tags writes the
 destination (_set_tag_dict) with exactly the reconciled `result` and returns the reported updates/conflicts; InterTags.merge
 also reconciles the master's tags unless ignore_master.
+remote-tags-cache-follows-write: RemoteBranch._set_tags_bytes refreshes the cached tags on every normal exit while locked.
+git-tag-target-holds-object: InterTagsFromGitToLocalGit.merge writes a ref into the target's refs only after resolving the
+tagged object in the target repository (third-round seeds).
 Does not decide: bencode correctness (library); git tag stores beyond the shared reconcile function.
 """
 
@@ -118,7 +121,37 @@ def run(ctx):
     ctx.check("master-tags-reconciled", f"{TG}:InterTags.merge", len(mt) == 2 and len(_mst) == 1 and any(norm(c.args[0]) == f"{_mst[0]}.tags" for c in mt), "the master's tags are reconciled too unless ignore_master")
 
 
+    # ---- remote store: the tags cached under a lock are what was just written ------------------------------------------
+    # RemoteBranch._set_tags_bytes: while the branch is locked every normal exit has refreshed self._tags_bytes — the next
+    # merge_to under the same lock builds its result from that cache and overwrites the stored tags with it.
+    from ..cfg import build_cfg as _bcfg
+    from ..rules import calling as _calling
+
+    RM = "breezy/bzr/remote.py"
+    fst = repo.func(RM, "RemoteBranch._set_tags_bytes")
+    wst = f"{RM}:RemoteBranch._set_tags_bytes"
+    gst = _bcfg(fst).assume({"self.is_locked()": True})  # with exception edges: the VFS fallback lives in a handler
+    cache = [n.id for n in gst.nodes if n.kind == "stmt" and isinstance(n.ast, ast.Assign) and norm(n.ast.targets[0]) == "self._tags_bytes"]
+    r_ = gst.reach([gst.entry], avoid=set(cache), include_src=True)
+    w_ = gst.path([gst.entry], [gst.exit], avoid=set(cache)) if gst.exit in r_ else None
+    ctx.check("remote-tags-cache-follows-write", wst, bool(cache) and gst.exit not in r_, "while locked, every normal exit of _set_tags_bytes has refreshed the cached tags", message="RemoteBranch._set_tags_bytes can return (e.g. through the VFS fallback for a server without Branch.set_tags_bytes) without refreshing its cached tags: the next tag merge under the same lock starts from the stale dictionary and overwrites the file — tags stored by the previous transfer vanish without error or conflict", witness=gst.show_path(w_) if w_ else None)
+    # ---- git sibling: a tag ref is written into the target only when the target holds the tagged object -----------------
+    GB = "breezy/git/branch.py"
+    fgm = repo.func(GB, "InterTagsFromGitToLocalGit.merge")
+    wgm = f"{GB}:InterTagsFromGitToLocalGit.merge"
+    ggm = _bcfg(fgm)
+    stores = [(n.id, norm(n.ast.targets[0].value)) for n in ggm.nodes if n.kind == "stmt" and isinstance(n.ast, ast.Assign) and isinstance(n.ast.targets[0], ast.Subscript) and norm(n.ast.targets[0].value).endswith("._git.refs")]
+    ctx.require(bool(stores), f"{wgm}: no store into <repo>._git.refs found")
+    for sid, refs_expr in stores:
+        repo_name = refs_expr[: -len("._git.refs")]
+        look = _calling(ggm, attr="lookup_foreign_revision_id", recv=repo_name)
+        okg = bool(look) and ggm.always_before(look, [sid])[0]
+        ctx.check("git-tag-target-holds-object", wgm, okg, f"`{refs_expr}[...] = ...` is preceded on every path by {repo_name}.lookup_foreign_revision_id(...) (the target must contain the tagged commit)", construct=ggm.nodes[sid].text()[:60], message=f"a tag ref is written into {refs_expr} without first resolving the tagged object in that same repository: a tag whose commit was never fetched becomes a dangling ref, with overwrite a valid tag is replaced by it and disappears from the tag dictionary, and the reported updates cannot be read back")
+
+
 MUTANTS = [
+    Mutant("VFS fallback of _set_tags_bytes leaves the cache stale", "breezy/bzr/remote.py", "        if self.is_locked():\n            self._tags_bytes = bytes\n        medium = self._client._medium\n        if medium._is_remote_before((1, 18)):\n            self._vfs_set_tags_bytes(bytes)\n            return\n", "        medium = self._client._medium\n        if medium._is_remote_before((1, 18)):\n            self._vfs_set_tags_bytes(bytes)\n            return\n        if self.is_locked():\n            self._tags_bytes = bytes\n", expect="remote-tags-cache-follows-write"),
+    Mutant("git tag merge resolves the tag in the source repository", "breezy/git/branch.py", "                    updates[tag_name] = target_repo.lookup_foreign_revision_id(peeled)\n", "                    updates[tag_name] = self.source.branch.repository.lookup_foreign_revision_id(peeled)\n", expect="git-tag-target-holds-object"),
     Mutant("destination value overwritten unconditionally", TG, "        elif name not in result or overwrite:\n            updates[name] = target\n            result[name] = target\n        else:\n            conflicts.append((name, target, result[name]))", "        else:\n            updates[name] = target\n            result[name] = target", expect="reconcile-table"),
     Mutant("conflicting tag dropped from the result", TG, "        else:\n            conflicts.append((name, target, result[name]))\n    return result, updates, conflicts", "        else:\n            conflicts.append((name, target, result[name]))\n            del result[name]\n    return result, updates, conflicts", expect="reconcile-table"),
     Mutant("selector ignored", TG, "        if selector and not selector(name):\n            continue\n", "", expect="reconcile-table"),
